@@ -20,9 +20,10 @@ from models import validation as vm
 PROPERTY = "C07"
 LEVEL = "fault_enumeration"
 SHARDS = {"quick": 8, "thorough": 16}
-RULE = ("grid: document state {valid, warnings only, untyped Section, duplicate ids via keep_id clone, duplicate "
+RULE = ("grid: document state {valid, warnings only, untyped Section, duplicate ids via keep_id clone (siblings, and "
+        "across branches at different depths), duplicate "
         "sibling Section name/type, duplicate sibling Property name} x serialisation fault {none, text XML cannot "
-        "hold, attribute json cannot encode, unsupported RDF format, trix, injected exception in json.dumps / "
+        "hold, text with a lone surrogate, attribute json cannot encode, unsupported RDF format, trix, injected exception in json.dumps / "
         "yaml.dump / Graph.serialize / etree.tounicode, injected failure of the first file.write} x format {XML, "
         "JSON, YAML, RDF xml/turtle/nt/n3/json-ld} x target {absent, holding earlier data} x entry point "
         "{odml.save, ODMLWriter.write_file, XMLWriter.write_file, RDFWriter.write_file}; complete in quick; "
@@ -70,6 +71,28 @@ def make_state(doc, state):
         c = secs[0].clone(keep_id=True)
         c.name = c.name + "_copy"
         doc.append(c)
+    elif state in ("duplicate-ids-cross-branch-prop", "duplicate-ids-cross-branch-sec"):
+        # the two objects sharing an id live in different branches at different depths
+        want_prop = state.endswith("prop")
+        deep = [s for s in secs if s.parent is not doc]
+        src_sec = deep[0] if deep else secs[0]
+        if want_prop:
+            props = [p for s in secs for p in s.properties if s is not secs[-1]]
+            src = props[0] if props else odml.Property("only", values=[1], parent=secs[0])
+        else:
+            src = src_sec
+        # destination: a Section outside the source's branch, at another depth when possible
+        def top(o):
+            while o.parent is not doc:
+                o = o.parent
+            return o
+        others = [s for s in secs if top(s) is not top(src if not want_prop else src.parent)]
+        if not others:
+            others = [odml.Section("other_branch", "t", parent=doc)]
+        dst = sorted(others, key=lambda s: len(s.get_path()))[-1]
+        c = src.clone(keep_id=True)
+        c.name = c.name + "_copy"
+        dst.append(c)
     elif state == "duplicate-section":
         c = odml.Section("tmpname", secs[0].type, parent=secs[0].parent)
         c._name = secs[0].name
@@ -82,11 +105,12 @@ def make_state(doc, state):
     return doc
 
 
-STATES = ["valid", "warnings-only", "untyped-section", "duplicate-ids", "duplicate-section", "duplicate-property"]
+STATES = ["valid", "warnings-only", "untyped-section", "duplicate-ids", "duplicate-ids-cross-branch-prop",
+          "duplicate-ids-cross-branch-sec", "duplicate-section", "duplicate-property"]
 
 
 def faults_for(fmt):
-    f = ["none", "inject:first-write"]
+    f = ["none", "inject:first-write", "lone-surrogate-text"]
     if fmt == "XML":
         f += ["xml-unrepresentable-text", "inject:tounicode"]
     elif fmt == "JSON":
@@ -215,6 +239,9 @@ def run_cell(ctx, cell, sdir, spec=None):
             odml.Property("bad", values=["a\x00b", "ok"], parent=list(doc.itersections())[0])
         if fault == "json-unencodable-attribute":
             doc.version = {1, 2}
+        if fault == "lone-surrogate-text":
+            # e.g. os.fsdecode(b"rec_\xe9.dat"): text the file encoder may refuse at write time
+            odml.Property("surrogate", values=["rec_\udce9.dat"], parent=list(doc.itersections())[0])
         exp, _ = vm.expectations(doc)
         has_error = any(e["rank"] == vm.ERROR for e in exp)
         has_warning = any(e["rank"] == vm.WARNING for e in exp)
@@ -269,7 +296,7 @@ def run_cell(ctx, cell, sdir, spec=None):
                           "%s raised %r after %r" % (cfg, exc, w[:2]), case)
         return
     rec.outcome("returned")
-    if fault not in ("none",) and fault != "json-unencodable-attribute":
+    if fault not in ("none", "lone-surrogate-text") and fault != "json-unencodable-attribute":
         rec.violation("fault-not-effective:%s" % fault, "%s: the armed fault did not make the save fail" % cfg, case)
     # (c) written documents exist, load, and warnings are reported
     if not has_error or not validating:
